@@ -261,9 +261,11 @@ impl CodeWriter {
                     break;
                 };
                 let as_conv = member_try_assign(&positional);
-                let Some(pos) = positional.positional else {
+                if positional.positional.is_none() {
                     continue;
-                };
+                }
+                // The local variable is named after the field, not after the (display) `arg` name
+                let pos = &positional.name;
                 let pre = if first { "if" } else { "else if" };
                 let _ = matched_last.write_fmt(format_args!(
                     "\
